@@ -4,7 +4,8 @@
 //! valid document, storage backend).  The real `IndexWriter::add_document` / `commit` are run:
 //!   * correspondence: `add_document` result vs `SL.Doc.validateAdd`, and — when accepted — the
 //!     `commit` result vs `SL.Doc.collectOk` (same definitions the theorems of `Props/C15` are
-//!     about); the Lean predicate `conforms` vs the harness's own schema oracle;
+//!     about; the code after the repairs 37df93e/919e2f9/6d0f8bf); the Lean predicate `conforms`
+//!     vs the harness's own schema oracle;
 //!   * finder (implementation alone): (F1) accepted ⇒ `commit` succeeds, and after a failed commit
 //!     a *later* valid document must be committable through a new writer; (F2) a document that
 //!     violates the schema as documented (own Rust oracle `violations`) must be rejected by
@@ -462,7 +463,9 @@ pub fn violations(s: &SchemaS, doc: &Value) -> BTreeSet<String> {
   out
 }
 
-/// violation class → finding signature (`None`: a class the unchanged code does reject)
+/// violation class → finding signature.  The first four classes were accepted before the repairs
+/// 37df93e / 919e2f9 / 6d0f8bf; they keep their signatures so that a regression is reported under
+/// the name of the (now fixed) finding.
 fn accepted_sig(class: &str) -> String {
   match class {
     "unknown-top" => "accept.unknown-top-level-field".into(),
@@ -906,19 +909,23 @@ impl Prop for C15 {
     if m["conforms"].as_bool() != Some(viol.is_empty()) {
       s.disagree("conforms-vs-oracle", case, observed.clone(), m.clone());
     }
-    if m["benign"] == json!(false) {
-      s.count("model:not-benign");
+    if m["within_cap"] == json!(false) {
+      s.count("model:over-docstore-cap");
     }
     // instances of the theorems (model vs model): must never fail
     let b = |k: &str| m[k].as_bool().unwrap_or(false);
-    if b("add") && b("benign") && !b("commit") {
+    if b("add") && !b("collects") {
+      s.disagree("theorem-instance accepted_collects", case, observed.clone(), m.clone());
+    }
+    if b("add") && b("within_cap") && !b("commit") {
       s.disagree("theorem-instance accepted_commits_partial", case, observed.clone(), m.clone());
     }
-    if b("add") && !b("unknown_top") && !b("arr_in_arr") && b("leaves_typed") && !b("conforms") {
-      s.disagree("theorem-instance accepted_conforms_partial", case, observed.clone(), m.clone());
+    if b("add") != b("conforms") {
+      s.disagree("theorem-instance accepted_iff_conforms", case, observed.clone(), m.clone());
     }
-    if b("conforms") && !b("add") {
-      s.disagree("theorem-instance conforms_accepted", case, observed.clone(), m.clone());
+    // what the validation before the repairs would have said (documentation of the fixed defects)
+    if b("legacy_add") && !b("add") {
+      s.count("model:rejected-now-accepted-before-the-repairs");
     }
 
     // ---- finder (implementation alone) ---------------------------------------------------
